@@ -195,7 +195,9 @@ fn main() {
                 eprintln!("replay file was recorded against type pool {} but this build has {}", case.pool_digest, digest(&case.registry));
                 std::process::exit(2);
             }
+            vcore::crash::install(&format!("{path}.crash.json"));
             let Some(out) = replay_reg(&case) else { std::process::exit(2) };
+            let _ = std::fs::remove_file(format!("{path}.crash.json"));
             if out.failed {
                 println!("REPRODUCED property={} oracle={} {}", case.property, out.oracle, out.message);
                 std::process::exit(1);
